@@ -13,7 +13,57 @@
 // limitations under the License.
 //! Sane serialization & deserialization of cryptographic structs into hex
 
+use crate::grin_keychain::{BlindingFactor, Identifier};
 use serde::{Deserialize, Deserializer, Serializer};
+
+/// An even number of ASCII hex digits: the only text the hex decoders of grin_util /
+/// grin_keychain are safe on (they panic on a multi-byte character, and
+/// `BlindingFactor::from_hex` / `Identifier::from_hex` unwrap the decode)
+pub fn is_hex(s: &str) -> bool {
+	s.len() % 2 == 0 && s.bytes().all(|b| b.is_ascii_hexdigit())
+}
+
+/// grin_util::from_hex, for text from outside: it slices the text two bytes at a time and
+/// panics on a multi-byte character
+pub fn from_hex(s: &str) -> Result<Vec<u8>, String> {
+	if !s.is_ascii() {
+		return Err(s.to_string());
+	}
+	crate::grin_util::from_hex(s)
+}
+
+/// Creates a BlindingFactor from a hex string; text that is not hex is an error
+pub fn blind_from_hex<'de, D>(deserializer: D) -> Result<BlindingFactor, D::Error>
+where
+	D: Deserializer<'de>,
+{
+	use serde::de::Error;
+	String::deserialize(deserializer).and_then(|string| {
+		if !is_hex(&string) {
+			return Err(Error::custom("invalid hex in blinding factor"));
+		}
+		BlindingFactor::from_hex(&string).map_err(|err| Error::custom(err.to_string()))
+	})
+}
+
+/// Creates an optional key Identifier from a hex string; text that is not hex is an error
+pub fn option_identifier_from_hex<'de, D>(deserializer: D) -> Result<Option<Identifier>, D::Error>
+where
+	D: Deserializer<'de>,
+{
+	use serde::de::Error;
+	Option::<String>::deserialize(deserializer).and_then(|res| match res {
+		Some(string) => {
+			if !is_hex(&string) {
+				return Err(Error::custom("invalid hex in key identifier"));
+			}
+			Identifier::from_hex(&string)
+				.map(Some)
+				.map_err(|err| Error::custom(err.to_string()))
+		}
+		None => Ok(None),
+	})
+}
 
 /// Seralizes a byte string into base64
 pub fn as_base64<T, S>(bytes: T, serializer: S) -> Result<S::Ok, S::Error>
@@ -36,9 +86,10 @@ where
 
 /// Serializes an Option<secp::Signature> to and from hex
 pub mod option_rangeproof_hex {
+	use super::from_hex;
 	use crate::grin_util::secp::constants::MAX_PROOF_SIZE;
 	use crate::grin_util::secp::pedersen::RangeProof;
-	use crate::grin_util::{from_hex, ToHex};
+	use crate::grin_util::ToHex;
 	use serde::de::{Error, IntoDeserializer};
 	use serde::{Deserialize, Deserializer, Serializer};
 
@@ -137,7 +188,8 @@ pub mod ov3_serde {
 
 /// Serializes an ed25519 PublicKey to and from hex
 pub mod dalek_seckey_serde {
-	use crate::grin_util::{from_hex, ToHex};
+	use super::from_hex;
+	use crate::grin_util::ToHex;
 	use ed25519_dalek::SecretKey as DalekSecretKey;
 	use serde::{Deserialize, Deserializer, Serializer};
 
@@ -165,7 +217,8 @@ pub mod dalek_seckey_serde {
 
 /// Serializes an ed25519 PublicKey to and from hex
 pub mod dalek_pubkey_serde {
-	use crate::grin_util::{from_hex, ToHex};
+	use super::from_hex;
+	use crate::grin_util::ToHex;
 	use ed25519_dalek::PublicKey as DalekPublicKey;
 	use serde::{Deserialize, Deserializer, Serializer};
 
@@ -193,7 +246,8 @@ pub mod dalek_pubkey_serde {
 
 /// Serializes an x25519 PublicKey to and from hex
 pub mod dalek_xpubkey_serde {
-	use crate::grin_util::{from_hex, ToHex};
+	use super::from_hex;
+	use crate::grin_util::ToHex;
 	use serde::{Deserialize, Deserializer, Serializer};
 	use x25519_dalek::PublicKey as xDalekPublicKey;
 
@@ -304,7 +358,8 @@ pub mod option_dalek_pubkey_serde {
 	use serde::de::Error;
 	use serde::{Deserialize, Deserializer, Serializer};
 
-	use crate::grin_util::{from_hex, ToHex};
+	use super::from_hex;
+	use crate::grin_util::ToHex;
 
 	///
 	pub fn serialize<S>(key: &Option<DalekPublicKey>, serializer: S) -> Result<S::Ok, S::Error>
@@ -346,7 +401,8 @@ pub mod option_xdalek_pubkey_serde {
 	use serde::{Deserialize, Deserializer, Serializer};
 	use x25519_dalek::PublicKey as xDalekPublicKey;
 
-	use crate::grin_util::{from_hex, ToHex};
+	use super::from_hex;
+	use crate::grin_util::ToHex;
 
 	///
 	pub fn serialize<S>(key: &Option<xDalekPublicKey>, serializer: S) -> Result<S::Ok, S::Error>
@@ -387,7 +443,8 @@ pub mod dalek_sig_serde {
 	use serde::{Deserialize, Deserializer, Serializer};
 	use std::convert::TryFrom;
 
-	use crate::grin_util::{from_hex, ToHex};
+	use super::from_hex;
+	use crate::grin_util::ToHex;
 
 	///
 	pub fn serialize<S>(sig: &DalekSignature, serializer: S) -> Result<S::Ok, S::Error>
@@ -422,7 +479,8 @@ pub mod option_dalek_sig_serde {
 	use serde::{Deserialize, Deserializer, Serializer};
 	use std::convert::TryFrom;
 
-	use crate::grin_util::{from_hex, ToHex};
+	use super::from_hex;
+	use crate::grin_util::ToHex;
 
 	///
 	pub fn serialize<S>(sig: &Option<DalekSignature>, serializer: S) -> Result<S::Ok, S::Error>
